@@ -544,6 +544,14 @@ Fixpoint auth_acts (nconn : nat) (acts : list sx) (s : state) (i ups : nat) (out
                        end
         | _ => None
         end
+      else if is "corrupt" then   (* a frame the client cannot parse: it gives the connection up *)
+        match args with
+        | SN k :: _ => match step nconn qid s (LDrop (small k)) with
+                       | Some s2 => auth_acts nconn t s2 i ups (SA "closed" :: outs) mute
+                       | None => None
+                       end
+        | _ => None
+        end
       else if is "recover" then
         match recover 64 nconn s i ups with
         | Some (s2, i2, ups2) => auth_acts nconn t s2 i2 ups2 (SA "up" :: outs) mute
